@@ -1335,6 +1335,14 @@ class C11(PropBase):
         out = []
         for name in sorted(FAMILIES):
             out.extend(FAMILIES[name].gen(rng, tier))
+        # "selecting accounts never changes the figures of the rows that remain" also when the figures are converted at a
+        # price: journal-level price-conversion cases with per-report selectors are C07's (exact converted sums per row,
+        # metadata = rates applied), borrowed here and run / judged by C07's plug-in
+        if not focus:
+            import c07
+            for _ in range(25 if tier == "quick" else 500):
+                pc = c07.PROP.gen_case(rng, rng.choice(["two-targets", "random", "at-instant"]))
+                out.append(dict(c07.PROP.to_run_case(rng, pc, "selector"), delegate="c07", kind="priced:selector"))
         return out
 
     def impl_case(self, case):
